@@ -71,3 +71,94 @@ package experiment
 //@   ensures [perm] ms(result) == ms(x)
 //@   ensures [nonan] forall i :: 0 <= i && i < len(result) ==> !isNaN(result[i])
 //@   ensures [fresh] fresh(result) && result != nil
+
+// ---- C20: the trial / generation protocol of Experiment.Execute ---------------------------------
+// Ghost protocol state, advanced only by the (assumed) contracts of the callbacks below.
+//@ ghost gTrial Int          // index of the trial whose population was spawned last (-1 before the first)
+//@ ghost gPop Int            // that population
+//@ ghost gEval Int           // generations evaluated in the current trial
+//@ ghost gTurn Int           // epoch turnovers performed in the current trial
+//@ ghost gSolved Bool        // the last evaluated generation of the current trial reported solved
+//@ ghost gMaxGen Int         // configured number of generations
+//@ ghost gStartedFor Int     // last trial announced to the observer with TrialRunStarted
+//@ ghost gNotified Int       // generations of the current trial announced with EpochEvaluated
+//@ ghost gFinishedFor Int    // last trial announced with TrialRunFinished
+
+// Assumption about the caller: the context carries a non-nil options value within its documented ranges.
+//@ func neat.FromContext
+//@   trusted assumption on the caller-provided context (options non-nil, counts non-negative)
+//@   pure
+//@   ensures result1 ==> result0 != nil && result0.NumRuns >= 0 && result0.NumGenerations >= 0
+//@ func genetics.NewPopulation
+//@   reason spawning is covered by C01/C02/C06; here only its protocol role matters
+//@   modifies ghost gTrial, ghost gPop, ghost gEval, ghost gTurn, ghost gSolved, ghost gNotified
+//@   ensures result1 == nil ==> result0 != nil && fresh(result0) && gTrial == old(gTrial) + 1 && gPop == result0 && gEval == 0 && gTurn == 0 && !gSolved && gNotified == 0
+//@   ensures result1 != nil ==> gTrial == old(gTrial) && gEval == old(gEval)
+//@ func (*genetics.Population).Verify
+//@   reason debug verifier: reads the population only
+//@   pure
+//@ func (GenerationEvaluator).GenerationEvaluate
+//@   trusted interface contract: generations are evaluated in order 0,1,2,... on the population spawned for the trial, never after a solved one, each after exactly one turnover of the previous one
+//@   requires [order] epoch != nil && epoch.Id == gEval && epoch.TrialId == gTrial && gEval < gMaxGen
+//@   requires [notAfterSolved] !gSolved
+//@   requires [population] pop != nil && pop == gPop
+//@   requires [turnedOver] gTurn == gEval
+//@   modifies ghost gEval, ghost gSolved, Generation.Solved, Generation.Champion, Generation.Fitness, Generation.Age, Generation.Complexity, Generation.Diversity, Generation.WinnerEvals, Generation.WinnerNodes, Generation.WinnerGenes
+//@   ensures result == nil ==> gEval == old(gEval) + 1 && gSolved == epoch.Solved && (epoch.Solved ==> epoch.Champion != nil)
+//@   ensures result != nil ==> gEval == old(gEval) && gSolved == old(gSolved)
+//@   ensures epoch.Id == old(epoch.Id) && epoch.TrialId == old(epoch.TrialId)
+//@ func (genetics.PopulationEpochExecutor).NextEpoch
+//@   trusted interface contract: a population is turned over once per unsolved evaluated generation
+//@   requires [unsolvedOnly] !gSolved
+//@   requires [once] gTurn == gEval - 1 && generation == gEval - 1
+//@   requires [population] population != nil && population == gPop
+//@   modifies ghost gTurn
+//@   ensures result == nil ==> gTurn == old(gTurn) + 1
+//@   ensures result != nil ==> gTurn == old(gTurn)
+//@ func (TrialRunObserver).TrialRunStarted
+//@   trusted interface contract: exactly one start per trial, before any evaluation
+//@   requires [once] gStartedFor == gTrial - 1 && gEval == 0
+//@   requires [trial] trial != nil && trial.Id == gTrial
+//@   modifies ghost gStartedFor
+//@   ensures gStartedFor == gTrial
+//@ func (TrialRunObserver).EpochEvaluated
+//@   trusted interface contract: every evaluated generation is announced exactly once, in order, after its turnover
+//@   requires [started] gStartedFor == gTrial
+//@   requires [onceInOrder] gNotified == gEval - 1 && epoch != nil && epoch.Id == gEval - 1
+//@   requires [afterTurnover] gSolved || gTurn == gEval
+//@   requires [recorded] trial != nil && len(trial.Generations) == gEval
+//@   modifies ghost gNotified
+//@   ensures gNotified == gEval
+//@ func (TrialRunObserver).TrialRunFinished
+//@   trusted interface contract: exactly one finish per trial, after its last generation
+//@   requires [once] gFinishedFor == gTrial - 1 && gStartedFor == gTrial
+//@   requires [afterLast] gNotified == gEval && (gSolved || gEval == gMaxGen)
+//@   requires [trial] trial != nil && trial.Id == gTrial
+//@   modifies ghost gFinishedFor
+//@   ensures gFinishedFor == gTrial
+
+//@ func epochExecutorForContext
+//@   props C20
+//@   requires neat.ErrNEATOptionsNotFound != nil
+//@   modifies nothing
+//@   ensures [executor] result1 == nil ==> !isNilIface(result0)
+//@ func (*Experiment).Execute
+//@   props C20
+//@   requires e != nil && e.Trials == nil && evaluator != nil && startGenome != nil
+//@   requires gTrial == -1 && gStartedFor == -1 && gFinishedFor == -1
+//@   requires neat.ErrNEATOptionsNotFound != nil
+//@   set gMaxGen = result0.NumGenerations @ after 1 FromContext
+//@   ensures [allTrials] result == nil ==> len(e.Trials) == gTrial + 1 && (trialObserver != nil ==> gStartedFor == gTrial && gFinishedFor == gTrial)
+//@   ensures [recorded] result == nil ==> (forall r :: 0 <= r && r < len(e.Trials) ==> e.Trials[r].Id == r)
+//@   loop 1:
+//@     invariant 0 <= run && gTrial == run - 1 && opts != nil && run <= opts.NumRuns && opts.NumRuns >= 0 && opts.NumGenerations >= 0
+//@     invariant len(e.Trials) == opts.NumRuns && e.Trials != nil
+//@     invariant trialObserver != nil ==> gStartedFor == run - 1 && gFinishedFor == run - 1
+//@     invariant forall r :: 0 <= r && r < run ==> e.Trials[r].Id == r
+//@   loop 2:
+//@     invariant 0 <= generationId && generationId <= opts.NumGenerations && opts != nil && opts.NumRuns >= 0 && run < opts.NumRuns && 0 <= run
+//@     invariant gTrial == run && gEval == generationId && gTurn == generationId && !gSolved && pop != nil && pop == gPop
+//@     invariant trial.Id == run && len(trial.Generations) == generationId
+//@     invariant trialObserver != nil ==> gStartedFor == run && gFinishedFor == run - 1 && gNotified == generationId
+//@     invariant len(e.Trials) == opts.NumRuns && e.Trials != nil && !isNilIface(epochExecutor)
+//@     invariant forall r :: 0 <= r && r < run ==> e.Trials[r].Id == r
